@@ -529,3 +529,126 @@ Proof.
 Qed.
 
 End IndirectNS.
+
+(* ---- several recursive alternatives first (UsualShapeN.v), at least one other alternative ------------------ *)
+From PegV Require Import UsualShapeN.
+
+Section Far.
+Variable scfg : state_cfg.
+Hypothesis Hle : rec_le scfg = true.
+
+(* the planted error is the sentinel at the entry offset, or the real error the state already held beyond it *)
+Lemma e0_far st :
+  (forall f, far st = Some f -> e_spec f <> LeftRecursionSentinel) ->
+  Ifar (off st) (report_error scfg st LeftRecursionSentinel).
+Proof.
+  intro N. set (a0 := {| e_pos := off st; e_spec := LeftRecursionSentinel |}).
+  assert (Fa : Ifar (off st) a0) by (right; split; [reflexivity|cbn; constructor]).
+  unfold report_error. fold a0.
+  destruct (far st) as [f|] eqn:F.
+  - specialize (N f eq_refl). destruct (Nat.leb (e_pos f) (off st)) eqn:L.
+    + assert (R1 : record_error scfg st a0 = {| rest := rest st; off := off st; far := Some a0 |}).
+      { unfold record_error. rewrite F, Hle. cbn [e_pos a0]. rewrite L. reflexivity. }
+      rewrite R1. exact Fa.
+    + assert (R1 : record_error scfg st a0 = st).
+      { unfold record_error. rewrite F, Hle. cbn [e_pos a0]. rewrite L. reflexivity. }
+      rewrite R1. unfold report_farthest_error. rewrite F.
+      left. split; [exact N|]. apply PeanoNat.Nat.leb_gt in L. lia.
+  - assert (R1 : record_error scfg st a0 = {| rest := rest st; off := off st; far := Some a0 |}).
+    { unfold record_error. rewrite F. reflexivity. }
+    rewrite R1. exact Fa.
+Qed.
+
+Lemma record_far_ok p s e : Ist p s -> Ifar p e -> Ist p (record_error scfg s e).
+Proof.
+  intros I0 [E|[S L]]; [exact (Nst_Ist p _ (record_ok scfg Hle (fun _ => true) p s e I0 E))|].
+  destruct I0 as [A B]. unfold record_error. rewrite Hle. destruct (far s) as [f|] eqn:F.
+  - destruct (Nat.leb (e_pos f) (e_pos e)).
+    + split; [exact A|]. cbn. intros f' X. injection X as <-. right. split; assumption.
+    + split; [exact A|]. intros f' X. rewrite F in X. exact (B f' X).
+  - split; [exact A|]. cbn. intros f' X. injection X as <-. right. split; assumption.
+Qed.
+End Far.
+
+Section UsualN_NS.
+Variable ustate : Type.
+Variable scfg : state_cfg.
+Hypothesis Hle : rec_le scfg = true.
+Variable tcfg : term_cfg.
+Variable fcfg : fields_cfg.
+Variable rcfg : rule_cfg.
+Hypothesis Hclosed : leftrec_closed rcfg = true.
+Variable hk : hooks ustate.
+Variable g : grammar.
+Notation glb := (glob ustate).
+Notation Mrun := (run ustate scfg tcfg fcfg rcfg hk g).
+Variable A : rule.
+Notation a := (r_name A).
+Hypothesis Hfind : find_grule g a = Some (GRule A).
+Hypothesis Hlr : fl_left_recursive (flags_of (r_directives A)) = true.
+Variable recs : list ralt.
+Variable b1 : expr.
+Variable balts' : list expr.
+Notation balts := (b1 :: balts').
+Variables (al1 al2 : expr) (alr : list expr).
+Hypothesis Hshape : map (ralt_e A) recs ++ balts = al1 :: al2 :: alr.
+Hypothesis HdefN : r_def A = adefN A recs balts.
+Variable rf fds : list fdesc.
+Hypothesis HrfN : get_fields fcfg (gf_fuel g) g (adefN A recs balts) = GFOk rf.
+Hypothesis HfdsN : filt fcfg g (actx A rf) (adefN A recs balts) = Some fds.
+Variables fds1_of inner_of : ralt -> list fdesc.
+Hypothesis Hper : forall r, In r recs ->
+  filt fcfg g (actx A rf) (ralt_e A r) = Some (fds1_of r) /\ own_fields fcfg g (ralt_e A r) = Some (inner_of r).
+Variable clean : name -> bool.
+Hypothesis Hclean : forall n, clean n = true -> rule_clean g clean n.
+Hypothesis Hinc : forall n r, clean n = true -> find_rule g n = Some r -> eclean clean (r_def r) = true.
+Hypothesis Hwsc : clean n_Whitespace = true.
+Hypothesis Htails : forall r, In r recs -> lclean clean (ra_x1 r :: ra_xs r) = true.
+Variables (r1 : ralt) (recs' : list ralt).
+Hypothesis Hrecs : recs = r1 :: recs'.
+Hypothesis Hb : lclean clean balts = true.
+
+(* on the seed turn every recursive alternative records the planted error; the other alternatives start from a
+   fine state *)
+Lemma rec_loop_seed_I k e0 p0 : Ifar p0 e0 -> forall rs cst gl, Ist p0 cst -> exists cst' gl',
+  Ist p0 cst' /\
+  rec_loop ustate scfg tcfg fcfg rcfg hk g A balts rf fds fds1_of inner_of k (CErr e0) rs cst gl =
+  choice_loop ustate scfg fcfg g (Mrun (S (S (S k)))) (actx A rf) fds balts cst' gl'.
+Proof.
+  intro F0. induction rs as [|r rest IH]; intros cst gl I; cbn [rec_loop].
+  - exists cst, gl. split; [exact I|reflexivity].
+  - apply IH. apply (record_far_ok scfg Hle); assumption.
+Qed.
+
+Theorem usualN_no_sentinel st F gl e gl' :
+  ws_trivial g A rf st ->
+  (forall f, far st = Some f -> e_spec f <> LeftRecursionSentinel) ->
+  cache_get a (off st) (g_cache gl) = None ->
+  ev_rule (Mrun F) a st gl = (MErr e, gl') ->
+  e_spec e <> LeftRecursionSentinel.
+Proof.
+  intros W N C E.
+  pose proof (usualN_parse ustate scfg tcfg fcfg rcfg hk g A Hfind Hlr recs balts al1 al2 alr Hshape HdefN rf fds HrfN HfdsN
+                fds1_of inner_of Hper clean Hclean Hinc Hwsc Htails r1 recs' Hrecs st W F gl (MErr e) gl' C E) as U.
+  cbv zeta in U. destruct (U Hclosed) as (k & gl0 & gl1 & B). clear U.
+  unfold bodyN in B. rewrite Hrecs in B. cbn [rec_loop] in B.
+  set (e0 := report_error scfg st LeftRecursionSentinel) in *.
+  pose proof (entry_ok0 scfg Hle st N) as I0. fold e0 in I0.
+  destruct (rec_loop_seed_I k e0 (off st) (e0_far scfg Hle st N) recs' (record_error scfg st e0)
+              (hitg ustate A (CErr e0) st gl0) I0) as (cst' & g' & I1 & E1).
+  rewrite E1 in B.
+  pose proof (U_choice_loop ustate scfg Hle fcfg g clean (off st) (Mrun (S (S (S k))))
+                (no_sentinel_walk ustate scfg Hle tcfg fcfg rcfg hk g clean Hclean Hinc Hwsc (off st) (S (S (S k))))
+                (actx A rf) fds balts Hb cst' g' I1 (fun X => ltac:(discriminate X))) as Q.
+  unfold post in Q.
+  destruct (choice_loop ustate scfg fcfg g (Mrun (S (S (S k)))) (actx A rf) fds balts cst' g') as [[fs s'|e'|pn|] g2];
+    cbn [fst] in Q; unfold finish in B.
+  - match type of B with (match ?o with _ => _ end) = _ => destruct o as [w|] end; [|discriminate B].
+    pose proof (U_run_checks ustate scfg Hle hk clean (off st) (checks_of (r_directives A)) w s' g2 Q) as Q2.
+    unfold post in Q2. rewrite B in Q2. cbn [fst] in Q2. exact (proj1 Q2).
+  - injection B as <- _. exact (proj1 Q).
+  - discriminate B.
+  - discriminate B.
+Qed.
+
+End UsualN_NS.
